@@ -25,6 +25,9 @@ REQUIRED_QUICK = [
     "udp_readmode_sync_sessions", "udp_readmode_flush_after_close_calls",
     # several logical UDP sessions to one remote address (accept + via / via + via): gauge sampled in their callbacks
     "udp_via_to_peer_with_open_session",
+    # teardown by dropping the last owner while running (application thread / inside a callback) with open sessions carrying user data
+    "tcp_teardown_drop_last_owner_user_thread", "udp_teardown_drop_last_owner_user_thread", "tcp_teardown_drop_last_owner_in_callback",
+    "tcp_teardown_open_sessions_with_userdata", "udp_teardown_open_sessions_with_userdata", "tcp_cleanup_conservation_registered",
 ]
 
 # plan kinds / ends as numbered in harness/c02_actors.hpp (used to attribute a close class to the planned origin)
